@@ -91,6 +91,31 @@ def run_property(pid, spec: PropertySpec, tier, seed, t0):
             if relevant(pid, o["name"], spec.include_untagged):
                 o = dict(o, label=st["label"])
                 all_obl.append(o)
+    # stale-name guard: a contract file that names a private attribute which existed in the reference tree but is gone from the current source is out of
+    # date (the attribute was renamed or removed); what fails in the functions it serves is undecided, never a violation
+    try:
+        from pyvc.attrnames import stale_names
+        from pyvc.front import SRC as _SRC
+        _stale = stale_names(os.path.join(os.path.dirname(os.path.dirname(os.path.abspath(__file__))), "contracts"), _SRC)
+    except Exception:
+        _stale = {}
+    if _stale:
+        from pyvc.run import load as _load
+        _cs = _load()[2]
+        _mods_of = {}
+        for st in statuses:
+            ms = set()
+            for q in [st["function"]] + list(st["contracts_used"]):
+                c = _cs.get(q)
+                if c is not None:
+                    ms.update(k.__module__ for k in type(c).__mro__ if k.__module__.startswith("contracts."))
+            _mods_of[st["label"]] = ms
+        for o in all_obl:
+            if o["verdict"] == "failed" and o.get("backend", "z3") == "z3":
+                gone = sorted({n for m in _mods_of.get(o.get("label"), ()) for n in _stale.get(m, ())})
+                if gone:
+                    o["verdict"] = "unknown"
+                    o["name"] = f"{o['name']} [undecided: the contract names the attribute(s) {', '.join(gone)} of the reference tree, which no longer exist in the source - contract out of date]"
     for q, f in fuc.items():
         if f["returned_paths"] == 0 and f["paths"] > 0 and not q.endswith(".setter"):
             pass
